@@ -360,6 +360,21 @@ def common_pool(run, rnd, quick):
     return scns
 
 
+DEEP_FAMILY = {"C06": "logon", "C16": "admin", "C10": "resend", "C15": "logout", "C08": "time", "C09": "time", "C07": "admin", "C14": "admin"}
+
+
+def deep_model_check(run, prop):
+    """thorough tier: the property's own action alphabet one step deeper, properties only (no scenario emission)."""
+    fam = DEEP_FAMILY.get(prop)
+    if not fam:
+        return
+    for role in ("acceptor", "initiator"):
+        depth = 6 if fam in ("logon", "resend", "logout", "time") else 4
+        res = tlc("MCSession", mc_cfg(role, fam, depth, emit=False), run.sub("mc-deep-%s-%s" % (role[0], fam)), ["Session.tla", "MCSession.tla"],
+                  workers=NCPU, timeout=2400, heap="24g")
+        run.add_mc(res, "MCSession role=%s family=%s depth=%d, properties only" % (role, fam, depth))
+
+
 def extra_pool(run, prop, rnd, quick):
     """Property-specific depth on top of the common pool."""
     if prop in ("C08", "C09", "C15"):
@@ -393,6 +408,8 @@ def check(prop, tier, seed):
     rnd = random.Random(seed * 7919 + sum(ord(c) for c in prop))
     binp = go_test_build("./sess/", "sess.test")
     pool_rnd = random.Random(seed)
+    if not quick:
+        deep_model_check(run, prop)
     scns = common_pool(run, pool_rnd, quick)
     ncommon = len(scns)
     extra = extra_pool(run, prop, rnd, quick)
